@@ -1,0 +1,91 @@
+//! Verification hooks (H2), compiled only with `--cfg huginn_net_verif`:
+//! a process-global recorder of the packets each pool worker handles, and seeded
+//! schedule perturbation points in `dispatch` and in the worker loop.
+use std::cell::Cell;
+use std::sync::atomic::{AtomicU64, Ordering};
+use std::sync::Mutex;
+
+/// One packet handled by a worker thread.
+#[derive(Debug, Clone)]
+pub struct Event {
+    /// position in the global order (assigned under the recorder's lock)
+    pub seq: u64,
+    /// worker index taken from the thread name (`*-worker-N`), -1 if not a worker thread
+    pub worker: i64,
+    /// FNV-1a hash of the packet bytes
+    pub tag: u64,
+}
+
+static EVENTS: Mutex<Vec<Event>> = Mutex::new(Vec::new());
+static PERTURB_SEED: AtomicU64 = AtomicU64::new(0);
+
+thread_local! {
+    static RNG: Cell<u64> = const { Cell::new(0) };
+}
+
+/// 0 disables perturbation; any other value seeds it.
+pub fn set_perturbation(seed: u64) {
+    PERTURB_SEED.store(seed, Ordering::SeqCst);
+}
+
+pub fn take_events() -> Vec<Event> {
+    match EVENTS.lock() {
+        Ok(mut g) => std::mem::take(&mut *g),
+        Err(_) => Vec::new(),
+    }
+}
+
+pub fn tag(bytes: &[u8]) -> u64 {
+    let mut h: u64 = 0xcbf2_9ce4_8422_2325;
+    for b in bytes {
+        h ^= u64::from(*b);
+        h = h.wrapping_mul(0x0000_0100_0000_01b3);
+    }
+    h
+}
+
+fn worker_index() -> i64 {
+    std::thread::current()
+        .name()
+        .and_then(|n| n.rsplit('-').next().and_then(|i| i.parse::<i64>().ok()))
+        .unwrap_or(-1)
+}
+
+/// Called by a pool worker for every packet it takes from its queue, before analysing it.
+pub fn worker_packet(packet: &[u8]) {
+    perturb(1);
+    let worker = worker_index();
+    let t = tag(packet);
+    if let Ok(mut g) = EVENTS.lock() {
+        let seq = g.len() as u64;
+        g.push(Event { seq, worker, tag: t });
+    }
+    perturb(2);
+}
+
+/// Seeded yield / short sleep; widens the set of thread schedules that get exercised.
+pub fn perturb(point: u64) {
+    let seed = PERTURB_SEED.load(Ordering::Relaxed);
+    if seed == 0 {
+        return;
+    }
+    let r = RNG.with(|c| {
+        let mut x = c.get();
+        if x == 0 {
+            x = seed
+                ^ (worker_index() as u64).wrapping_mul(0x9e37_79b9_7f4a_7c15)
+                ^ 0x2545_f491_4f6c_dd1d;
+        }
+        x ^= x << 13;
+        x ^= x >> 7;
+        x ^= x << 17;
+        c.set(x);
+        x.wrapping_add(point)
+    });
+    match r % 8 {
+        0..=3 => {}
+        4 | 5 => std::thread::yield_now(),
+        6 => std::thread::sleep(std::time::Duration::from_micros(50)),
+        _ => std::thread::sleep(std::time::Duration::from_micros(300)),
+    }
+}
